@@ -420,21 +420,23 @@ func c15Loop(c *Ctx, h *handleModel) {
 	// Analyze default depth
 	if an := c.find("pkg/engine", "Engine", "Analyze"); an != nil {
 		good := false
+		fam := map[*ssa.Function]bool{}
+		for _, f := range funcFamily(an) {
+			fam[f] = true
+		}
 		for _, fs := range allFieldStores(c.P) {
-			if fs.Fn == an && fs.Field == "DepthLimit" {
+			if fam[fs.Fn] && fs.Field == "DepthLimit" {
 				if strings.Contains(pathExpr(fs.Instr.(*ssa.Store).Val), "e.opts.Depth") {
-					// guarded by "request has no limit"
-					for _, ge := range guardsOf(fs.Instr.Block(), an.Blocks[0]) {
-						if strings.Contains(pathExpr(ge.cond), "DepthLimit") || strings.Contains(pathExpr(ge.cond), "V(") {
-							good = !ge.pol
+					// guarded by "request has no limit": the false edge of the optional's ok flag
+					for _, ge := range edgeGuards(fs.Instr.Block()) {
+						if ge.pol {
+							continue
 						}
-					}
-					if !good {
-						// cond is the extracted ok flag of V()
-						for _, ge := range guardsOf(fs.Instr.Block(), an.Blocks[0]) {
-							if ex, ok := ge.cond.(*ssa.Extract); ok && ex.Index == 1 && !ge.pol {
-								good = true
-							}
+						if ex, ok := ge.cond.(*ssa.Extract); ok && ex.Index == 1 && callBehind(ex, "V") != nil {
+							good = true
+						}
+						if strings.Contains(pathExpr(ge.cond), "DepthLimit") || strings.Contains(pathExpr(ge.cond), "V(") {
+							good = true
 						}
 					}
 				}
@@ -515,7 +517,7 @@ func c15Hard(c *Ctx, limits, enforce *ssa.Function) {
 				for _, cb := range mc.Fn.(*ssa.Function).Blocks {
 					for _, ci := range cb.Instrs {
 						if c2, ok := ci.(ssa.CallInstruction); ok && c2.Common().IsInvoke() && c2.Common().Method.Name() == "Halt" {
-							halts = pathExpr(c2.Common().Value) == enforce.Params[1].Name()
+							halts = pathExpr(c2.Common().Value) == paramName(enforce.Params[1])
 						}
 					}
 				}
@@ -528,7 +530,7 @@ func c15Hard(c *Ctx, limits, enforce *ssa.Function) {
 			for _, b2 := range enforce.Blocks {
 				for _, i2 := range b2.Instrs {
 					if lc, ok := i2.(*ssa.Call); ok && lc.Call.StaticCallee() != nil && lc.Call.StaticCallee().Name() == "Limits" {
-						if pathExpr(lc.Call.Args[1]) != enforce.Params[3].Name() {
+						if pathExpr(lc.Call.Args[1]) != paramName(enforce.Params[3]) {
 							good = false
 							detail += "; Limits is asked for colour " + pathExpr(lc.Call.Args[1])
 						}
